@@ -198,5 +198,9 @@ def run(ctx, ck):
               'selector %s is computed from %s' % (nm_, sorted(set.intersection(*[fm for c, fm in lst]))) if not missing else
               'the shortcut selector %s does not depend on %s (%s): pairs for which this does not hold take the copied / '
               'reused value of another pair' % (nm_, ', '.join(missing), '; '.join(FAM[k_] for k_ in missing)))
+    # thresholds of the kernels (thin-wire limit ...) follow the frequency: none of them is cached across a change
+    ck.rule('R-EFFECT.frequency-state', 'no frequency-derived value of the model is cached across a frequency change')
+    from .C14 import check_frequency_cached
+    check_frequency_cached(ctx, ck, 'R-EFFECT.frequency-state')
     ck.undecided += ['agreement to 1e-4 with adaptive quadrature of the published formulation',
                      'Gauss order thresholds; that the five conditions are sufficient for the shortcuts']
